@@ -52,6 +52,10 @@ pub struct Case {
 /// C12 findings that wreck the zone or the process are kept out of C14 histories: "delete all
 /// RRsets" aimed at the apex is redirected to a host name
 fn sanitize(mut h: History) -> History {
+    // only while that C12 defect is still recorded as known (it was repaired in /repo: no-op now)
+    if !c12_known("delete-all-at-name-origin-test-inverted") {
+        return h;
+    }
     let o = updates::origin();
     for m in &mut h.msgs {
         for r in &mut m.updates {
@@ -63,8 +67,15 @@ fn sanitize(mut h: History) -> History {
     h
 }
 
+fn c12_known(sig: &str) -> bool {
+    static K: std::sync::OnceLock<Vec<String>> = std::sync::OnceLock::new();
+    K.get_or_init(|| crate::core::known_signatures("C12")).iter().any(|k| k == sig)
+}
+
 fn case_strategy(_t: Tier) -> impl Strategy<Value = Case> {
-    (updates::history(6, false), any::<u16>(), 0u8..3).prop_map(|(hist, salt, phase)| Case {
+    // serial 2^32-1 panicked the live run (overflow on increment) while that C12 defect existed
+    let allow_max_serial = !c12_known("panic:proto/src/rr/rdata/soa.rs:attempt-to-add-with-overflow");
+    (updates::history(6, allow_max_serial), any::<u16>(), 0u8..3).prop_map(|(hist, salt, phase)| Case {
         hist: sanitize(hist),
         salt,
         phase,
